@@ -9,9 +9,12 @@
   `SM.Free sm i` (seat `i` exists, is empty and not reserved), `SM.FreeActive` (… and active),
   `SM.setSeat sm i s` (replace exactly the record of seat `i`), `SM.joinsOK / SM.leavesOK sm ops`
   (number of successful joins / leaves when `ops` runs from `sm`), `SM.pidAt sm i` (player id at seat `i`),
-  `SM.joinPids ops` (pids of the join operations of a history), `SM.NoDoubleBooking`.
+  `SM.joinPids ops` (pids of the join operations of a history), `SM.NoDoubleBooking`,
+  `SM.Disciplined sm ops` (Proofs/SMGapsBook.lean: every join of the history is issued for a player who, at that
+  moment, sits nowhere; decidable).
 -/
 import Pokerface.Proofs.SMBook
+import Pokerface.Proofs.SMGapsBook
 
 namespace Pokerface.C18
 open SM
@@ -27,11 +30,22 @@ theorem demo_reachable : Reachable demo := ⟨4, _, rfl⟩
 
 /-- **C18, last sentence.** No sequence of seat operations makes the seat manager panic: in every reachable
 state every operation (any seat argument, any recorded choice) returns something other than `panic`
-(`panic` is the model's outcome for a Go slice-bounds / nil-dereference crash). -/
+(`panic` is the model's outcome for a Go slice-bounds / nil-dereference crash).
+
+**Scope (alphabet).** "Seat operations" are the five exported mutators `Join, Seat, Reserve, Leave, Next`
+(the constructors of `SMOp`); both the histories (`Reachable`) and the operation `op` range over exactly these.
+The read-only accessors and the restore plumbing (`ApplyStates`, `SetDealer`, …) are not in the alphabet.
+Observation outside the statement: the exported accessor `GetPlayableSeats()` dereferences `sm.dealer.ID`
+(`getPlayableSeats`) and therefore panics with a nil dereference whenever no dealer is set — on a fresh seat
+manager and after a refused `Next()` that reset the dealer (`C17.dealer_none_iff` says exactly when).  It is safe at
+the property's observation point "after `Next()` returns nil": `C08.positions_playable` gives `dealer = some d`
+there.  The accessor is not modelled. -/
 theorem no_panic (sm : SM) (h : Reachable sm) (op : SMOp) : (sm.step op).2.1 ≠ some .panic :=
   step_no_panic h.inv op
 
-/-- Same, over whole histories: no step of any run from a fresh seat manager panics. -/
+/-- Same, over whole histories: no step of any run from a fresh seat manager panics.  Alphabet as for `no_panic`:
+`ops` and `op` are built from the five mutators `Join, Seat, Reserve, Leave, Next` only (the accessor
+`GetPlayableSeats()`, which panics while no dealer is set, is outside). -/
 theorem no_panic_run (max : Nat) (ops : List SMOp) (op : SMOp) :
     (((SM.new max).run ops).step op).2.1 ≠ some .panic :=
   no_panic _ ⟨max, ops, rfl⟩ op
@@ -319,5 +333,47 @@ example : (joinPids [.join 0 1 none, .join 1 2 none, .leave 0, .join 0 3 none, .
 /-- The distinctness hypothesis is needed: the seat manager does not compare player ids. -/
 example : ¬ NoDoubleBooking ((SM.new 2).run [.join 0 7 none, .join 1 7 none]) := by
   intro h; have := h 0 1 7 (by decide) (by decide); cases this
+
+/-! ## no double booking, without the "every join uses a new id" restriction (review gap 1) -/
+
+/-- **"a player is never seated twice"**, for *disciplined* histories.  `Disciplined sm ops`
+(`Proofs/SMGapsBook.lean`): every `join` operation of `ops` — accepted or refused, any seat argument — is issued
+for a player id that sits on no seat *of the state in which that operation is carried out*
+(`∀ i, pidAt i ≠ some pid`); all other operations are unrestricted.  This is the weakest reasonable discipline (the
+seat manager does not compare player ids, see the counter-example after `no_double_booking`), and, unlike the
+`(joinPids ops).Nodup` hypothesis of `no_double_booking`, it allows a player to retry after a refused join and to
+leave and join again.  From any state satisfying the invariant (`Inv`, in particular any reachable state) in
+which no player sits twice, a disciplined history ends in a state in which no player sits twice. -/
+theorem no_double_booking_disciplined (sm : SM) (h : Inv sm) (hnd : NoDoubleBooking sm) (ops : List SMOp)
+    (hd : Disciplined sm ops) : NoDoubleBooking (sm.run ops) :=
+  run_noDoubleBooking_disciplined h hnd hd
+
+/-- The same from the empty table, for every table size; and — since every prefix of a disciplined history is
+disciplined — in *every intermediate state* of the history, not only the last. -/
+theorem no_double_booking_disciplined_new (max : Nat) (ops : List SMOp) (hd : Disciplined (SM.new max) ops) :
+    NoDoubleBooking ((SM.new max).run ops) ∧
+    ∀ pre post, ops = pre ++ post → NoDoubleBooking ((SM.new max).run pre) := by
+  have h0 : NoDoubleBooking (SM.new max) := by intro i j p hi; rw [pidAt_new] at hi; cases hi
+  refine ⟨run_noDoubleBooking_disciplined (inv_new max) h0 hd, ?_⟩
+  intro pre post he
+  subst he
+  exact run_noDoubleBooking_disciplined (inv_new max) h0 hd.prefix
+
+/-- `no_double_booking` is the special case: pairwise distinct join ids make a history disciplined. -/
+theorem disciplined_of_distinct_pids (max : Nat) (ops : List SMOp) (hd : (joinPids ops).Nodup) :
+    Disciplined (SM.new max) ops :=
+  disciplined_of_nodup (inv_new max) ops (by intro i p hi; rw [pidAt_new] at hi; cases hi) hd
+
+/-- Non-vacuity: player 2 is refused on the occupied seat 0 and retries on seat 1; player 1 leaves seat 0 and joins
+again on seat 2.  The history is disciplined although its join ids `[1, 2, 2, 1]` are not distinct (so
+`no_double_booking` does not apply), and both the refusal and the re-join really happen. -/
+example : let ops : List SMOp := [.join 0 1 none, .join 0 2 none, .join 1 2 none, .seat 0, .next, .leave 0,
+      .join 2 1 none, .next]
+    Disciplined (SM.new 3) ops ∧ ¬ (joinPids ops).Nodup ∧
+    ((SM.new 3).run [.join 0 1 none]).step (.join 0 2 none) = ((SM.new 3).run [.join 0 1 none], some .notAvailable, none) ∧
+    pidAt ((SM.new 3).run ops) 2 = some 1 ∧ pidAt ((SM.new 3).run ops) 1 = some 2 ∧
+    pidAt ((SM.new 3).run ops) 0 = none := by decide
+/-- The discipline is needed: the same player joining while seated is not disciplined (and is seated twice). -/
+example : ¬ Disciplined (SM.new 2) [.join 0 7 none, .join 1 7 none] := by decide
 
 end Pokerface.C18
